@@ -51,6 +51,12 @@ def probe_pool():
         ("key-unknown-type", b("CHECKSIG"), [b"\x01" * 64, b"\x07" * 33]),
         ("multisig-enc", b("CHECKMULTISIG", "NOT"), [b"", NONDER, b"\x51", GARBAGEKEY, b"\x51"]),
         ("multisig-nullfail", b("CHECKMULTISIG", "NOT"), [b"", DER, b"\x51", KEY, b"\x51"]),
+        ("multisig-emptysig-badkey", b("CHECKMULTISIG", "NOT"), [b"", b"", b"\x51", GARBAGEKEY, b"\x51"]),
+        ("multisig-emptysig-badkey2", b("1", b"\x00", "1", "CHECKMULTISIG", "NOT"), [b"", b""]),
+        ("multisig-emptysig-2of3", b("CHECKMULTISIG", "NOT"), [b"", b"", b"", b"\x52", KEY, GARBAGEKEY, KEYU, b"\x53"]),
+        ("multisig-mixed-2of2", b("CHECKMULTISIG", "NOT"), [b"", b"", DER, b"\x52", GARBAGEKEY, KEY, b"\x52"]),
+        ("multisigverify-emptysig", b("CHECKMULTISIGVERIFY", "1"), [b"", b"", b"\x51", KEYU, b"\x51"]),
+        ("checksig-emptysig-badkey-verify", b("CHECKSIGVERIFY", "1"), [b"", GARBAGEKEY]),
         ("codesep", b("1", "CODESEPARATOR"), []),
         ("findanddelete", G.push(DER) + b(KEY, "CHECKSIG", "NOT"), []),
         ("minimalif", b("IF", "1", "ELSE", "1", "ENDIF"), [b"\x02"]),
